@@ -169,6 +169,9 @@ def py_len(it, x):
     if isinstance(x, SList):
         if x.items and x.items[0] is V.PENDING:
             raise V.PendingRead('a trace is read before a postcondition has defined it')
+        from .dsl import EARLIER, OpaqueVal as _OV
+        if any(isinstance(e, _OV.Val) and e.name == EARLIER for e in x.items):
+            raise EngineError('length of a list whose earlier items are abstracted (TracePrefix)')
         return len(x.items)
     if isinstance(x, SDict):
         return len(x.d)
